@@ -404,6 +404,59 @@ impl Property for C09 {
                 }
             }
         }
+        // a message that takes several pipe calls even when the pipe accepts everything it is offered (should the
+        // sender split large messages): [small, 1500 bytes, small], every write call x {Zero, Err} x one-shot / persistent
+        if shard == 1 % nshards {
+            if let Some(idx) = reg.by_name("FlatVec<u8, u32>") {
+                let sh = reg.shapes[idx].as_ref();
+                let ty = sh.ty();
+                let small = Value::Vec(vec![Value::Scalar(1), Value::Scalar(2), Value::Scalar(3)]);
+                let big = Value::Vec((0..1500u32).map(|i| Value::Scalar((i % 200) as u128)).collect());
+                let values = vec![small.clone(), big, small];
+                let mut images = vec![];
+                let mut starts = vec![0usize];
+                for v in &values {
+                    let n = model::size_of(ty, v);
+                    let img = model::encode(ty, v, n, 0, &mut model::Canonical).map_err(|_| Violation { key: "harness-c09".into(), msg: "harness: cannot encode".into() })?;
+                    starts.push(starts.last().unwrap() + n);
+                    images.push(img);
+                }
+                let msgs = Msgs { values: values.clone(), initial: values.clone(), post_ops: vec![vec![]; 3], raw: vec![None; 3], use_default: vec![false; 3], images, starts, largest: 1504, has_padding: true };
+                let total = msgs.total();
+                for asynchronous in [false, true] {
+                    let variant = if asynchronous { "async" } else { "blocking" };
+                    for chunk in [usize::MAX, 600] {
+                        let budget = 2 * total + 64;
+                        let (_, _, base_calls, _) = match run_send(sh, asynchronous, &msgs, 1504, vec![], WOut::Accept(chunk), &FlushFaults::default(), budget) {
+                            Ok(x) => x,
+                            Err(p) => crate::vfail!("panic", "FlatVec<u8, u32>: fault-free {} send of a 1504-byte message panicked: {}", variant, p),
+                        };
+                        for call in 0..base_calls {
+                            for o in [WOut::Zero, WOut::Err(ErrorKind::Other), WOut::Err(ErrorKind::Interrupted)] {
+                                for persistent in [false, true] {
+                                    let mut script: Vec<WOut> = (0..call).map(|_| WOut::Accept(chunk)).collect();
+                                    script.push(o.clone());
+                                    let tail = if persistent { o.clone() } else { WOut::Accept(chunk) };
+                                    let what = format!("[{} sender, messages of 8, 1504 and 8 bytes, pipe accepts {} bytes per call, fault {:?} at pipe call {}{}]", variant, chunk as isize, o, call, if persistent { " (persistent)" } else { "" });
+                                    st.eval(1);
+                                    let (rep, data, _, log) = match run_send(sh, asynchronous, &msgs, 1504, script, tail, &FlushFaults::default(), budget) {
+                                        Ok(x) => x,
+                                        Err(p) => crate::vfail!("panic", "FlatVec<u8, u32>: {} {}", p, what),
+                                    };
+                                    if rep.stalled {
+                                        crate::vfail!("stalled", "FlatVec<u8, u32>: a send future stopped making progress {}", what);
+                                    }
+                                    if let Err((k, m)) = judge_send("FlatVec<u8, u32>", &msgs, &rep, &data, &log, &what) {
+                                        crate::vfail!(k, "{}", m);
+                                    }
+                                    st.nontrivial(("big", variant, chunk, call, format!("{:?}", o), persistent), || json!({"side": "write", "shape": "FlatVec<u8, u32>", "message_bytes": 1504, "variant": variant, "fault": format!("{:?}", o), "call": call, "persistent": persistent}));
+                                }
+                            }
+                        }
+                    }
+                }
+            }
+        }
         st.exhaustive_parts.push(format!("all single-fault scripts (each pipe call x each outcome x one-shot/persistent x blocking/async) for {} shapes", names.len()));
         Ok(())
     }
